@@ -1,5 +1,5 @@
 (* C05 — property theorems only. *)
-From C05 Require Import Model Spec Corr Proofs ProofsRound ProofsBits ProofsCmp ProofsDiv ProofsGcd ProofsAll.
+From C05 Require Import Model Spec Corr Proofs ProofsRound ProofsBits ProofsCmp ProofsDiv ProofsGcd ProofsArith ProofsAll.
 Open Scope Z_scope.
 
 (* (1) Inside the guard the code model returns the mathematically exact result in canonical form and
@@ -137,3 +137,16 @@ Theorem C05_repaired_cases_in_guard :
   in_domain OLcm [VFix 4611686018427387904; VFix 3; VBig (- B)] = true.
 Proof. exact repaired_examples. Qed.
 Print Assumptions C05_repaired_cases_in_guard.
+
+(* (10) + - * abs 1+ 1- on ANY operands math/big can hold (fixnums, bignum objects of any value, ratios in
+   lowest terms incl. denominator 1; any number of operands for the first three): unless some step pairs a bignum
+   beyond 64 bits with a ratio (float path), the result has the exact rational value and is in lowest terms
+   with a positive denominator.  Together with (1), (2), (7), (8): every modelled arithmetic operation
+   returns exact values on all operands of the exact types whenever it stays inside them. *)
+Theorem C05_arith_value_exact : forall o args,
+  arith_value_domain o args (o_res (m_op o args)) = true ->
+  exists so, s_out o args = Some so /\
+    res_same_value (o_res so) (o_res (m_op o args)) = true /\
+    lowest_res (o_res (m_op o args)) = true.
+Proof. exact arith_value_exact. Qed.
+Print Assumptions C05_arith_value_exact.
